@@ -77,6 +77,13 @@ def prod(
     """
     a = numpoly.aspolynomial(a)
     assert out is None
+    if dtype is None and a.dtype.kind in "biu":
+        # like numpy: small integers are multiplied as platform integers
+        default = numpy.dtype("uint" if a.dtype.kind == "u" else "int")
+        if a.dtype.itemsize < default.itemsize:
+            dtype = default
+    if dtype is not None:
+        a = a.astype(dtype)
     if keepdims:
         if axis is None:
             out = _prod(numpoly.reshape(a, -1), axis=0)
